@@ -287,13 +287,22 @@ def run_case(case, ctx):
             if wrapper:
                 obj = tkm.TuckerTensor(obj)
         M = gen.arr(rs, [shp[mode]] if vec else [int(rs.randint(1, 5)), shp[mode]], dt)
+        okind = gen.choice(rs, ["same", "same", "same", "int", "bool", "float64"])
+        if okind == "int":      # selection / aggregation matrices are naturally integer or boolean
+            M = rs.randint(-2, 3, size=M.shape).astype(np.int64)
+        elif okind == "bool":
+            M = rs.uniform(size=M.shape) < 0.5
+        elif okind == "float64":
+            M = ref.hp(M).real.astype(np.float64) if np.dtype(dt).kind == "c" else M.astype(np.float64)
+        desc.update(operand_dtype=okind)
         desc.update(dtype=dt, mode=mode, operand="vector" if vec else "matrix", keep_dim=keep_dim, copy=copy, wrapper=wrapper, method=via_method)
         want, _, _ = ref.mode_dot(dense, M, mode)
         # error bound: the same product on the absolute-value contraction of the factors (not on |dense|, which may cancel)
         wabs, _, _ = ref.mode_dot(absb, np.abs(M), mode)
         if vec and keep_dim:
             want, wabs = np.expand_dims(want, mode), np.expand_dims(wabs, mode)
-        cls = ("vector" if vec else "matrix") + ("+keep_dim" if (keep_dim and vec) else "") + ("" if wrapper else "+tuple") + ("" if copy else "+inplace")
+        cls = ("vector" if vec else "matrix") + ("+keep_dim" if (keep_dim and vec) else "") + ("" if wrapper else "+tuple") + ("" if copy else "+inplace") + \
+              ("" if okind == "same" else "+" + okind + "-operand")
         fn = cpm.cp_mode_dot if g == "cp_mode_dot" else tkm.tucker_mode_dot
         try:
             if via_method:
@@ -437,6 +446,26 @@ def run_case(case, ctx):
             if np.max(np.abs(ph.T @ ph - np.eye(R))) > 100 * eps:
                 viol("canonical-form", "any", "from_CPTensor projection is not orthonormal", desc)
                 break
+        ctx.nontriv(desc)
+    elif g == "svd_compress" and case["idx"] % 3 == 0:
+        # generic (noisy, full-rank) slices of any aspect ratio, the first one possibly with fewer rows than columns: with a zero
+        # threshold and max_rank at least the number of columns no singular value is dropped, so loading @ score is the slice
+        I, K = int(rs.randint(2, 5)), int(rs.randint(2, 6))
+        J = [int(rs.randint(1, K + 4)) for _ in range(I)]
+        if rs.rand() < 0.5:
+            J[0] = int(rs.randint(1, K))
+        Xs = [gen.arr(rs, [j, K], dt) for j in J]
+        max_rank = gen.choice(rs, [None, K, K + 2, max(J)])
+        desc = {"I": I, "J": J, "K": K, "max_rank": max_rank, "dtype": dt, "slices": "generic"}
+        scores, loadings = pre.svd_compress_tensor_slices([x.copy() for x in Xs], compression_threshold=0.0, max_rank=max_rank)
+        for i in range(I):
+            rec = ref.hp(scores[i]) if loadings[i] is None else ref.hp(loadings[i]) @ ref.hp(scores[i])
+            ctx.count("clause/dense-preserved")
+            ok, why = _close(rec, Xs[i], float(np.linalg.norm(Xs[i])), eps, c=2e3)
+            if not ok:
+                viol("dense-preserved", "generic-slices", "loading @ score != slice %d (shape %s, max_rank %s) although no singular value may be dropped: %s" % (
+                    i, Xs[i].shape, max_rank, why), desc)
+                return
         ctx.nontriv(desc)
     elif g == "svd_compress":
         I, R, K = int(rs.randint(2, 5)), int(rs.randint(1, 4)), int(rs.randint(1, 5))
